@@ -123,7 +123,17 @@ pub fn finish_sweep(prop: &mut dyn Prop, tier: Tier, rr: &RunResult) -> i32 {
             history = crate::runner::find_history(&id, tier, *idx, rr.workers.max(1), sig);
             reproduced = history.is_some();
         }
+        // still not: a fresh process shows ANOTHER violation for the same case (the verdict of the sweep depended on what ran
+        // before, the case fails either way): reported under the signature of the sweep, the replay file names both
+        let mut other_sig = false;
+        if !reproduced && !again.is_empty() && !again.starts_with("crash:") && !again.starts_with("replay-error") && again != "machinery" {
+            reproduced = true;
+            other_sig = true;
+        }
         let mut body = json!({"idx": idx, "case": desc.unwrap_or_else(|| prop.describe(*idx)), "detail": detail, "occurrences": count, "replayed_sig": again});
+        if other_sig {
+            body["replay_note"] = json!("in a fresh process the case fails with the signature in replayed_sig; the signature of the sweep depended on the cases executed before it in the same worker");
+        }
         if let Some(h) = &history {
             body["history"] = json!(h);
             body["history_note"] = json!("the case holds in a fresh process and fails after the listed earlier cases were executed in the same process: state survives from one connection / call to the next");
@@ -191,10 +201,11 @@ pub fn finish_sweep(prop: &mut dyn Prop, tier: Tier, rr: &RunResult) -> i32 {
         known,
         rr.wall_s
     );
-    if machinery_error {
-        2
-    } else if unlisted > 0 {
+    if unlisted > 0 {
+        // every VIOLATION above was reproduced in a fresh process: it stands, whatever else could not be reproduced
         1
+    } else if machinery_error {
+        2
     } else {
         0
     }
